@@ -225,6 +225,15 @@ class Repo:
                         tgt = obj
                 elif isinstance(c.func, ast.Attribute) and isinstance(c.func.value, ast.Name) and c.func.value.id in ("self", "cls") and g.cls is not None:
                     tgt = g.cls.methods.get(c.func.attr)
+                if tgt is None and isinstance(c.func, ast.Name):
+                    kind, obj = self.resolve_name(g.module, c.func.id)
+                    if kind == "class" and obj.module is g.module and obj.name.startswith("_"):
+                        tgt = obj.methods.get("__init__")  # a private class of the module introduced to carry part of the work
+                        for mm in obj.methods.values():
+                            if id(mm.node) not in seen and mm is not tgt:
+                                seen.add(id(mm.node))
+                                out.append(mm)
+                                todo.append((mm, d + 1))
                 if tgt is not None and id(tgt.node) not in seen:
                     seen.add(id(tgt.node))
                     out.append(tgt)
